@@ -108,10 +108,19 @@ class ModelClient:
                                   encoding='utf-8', bufsize=1 << 20)
 
     def ask(self, lines):
-        """send request lines, read one reply per line; chunked so that neither pipe buffer can fill up"""
+        """send request lines, read one reply per line; chunked by BYTES (requests and replies can be several KB each)
+        so that neither pipe buffer (64 KiB) can fill up while the other side is blocked"""
         out = []
-        for i in range(0, len(lines), 64):
-            out.extend(self._ask(lines[i:i + 64]))
+        chunk, size = [], 0
+        for ln in lines:
+            n = len(ln.encode('utf-8')) + 1
+            if chunk and (size + n > 16000 or len(chunk) >= 16):
+                out.extend(self._ask(chunk))
+                chunk, size = [], 0
+            chunk.append(ln)
+            size += n
+        if chunk:
+            out.extend(self._ask(chunk))
         return out
 
     def _ask(self, lines):
